@@ -484,7 +484,8 @@ C10_output(d, prev, step) ==
      /\ (Len(d.output) > 0 /\ ~HasErr(step.obs, "expr")) => step.obs.hasout
 
 (* C11: run-time expression errors are contained, recorded and fail the workflow. *)
-C11_no_escape(step) == step.ret = "ok" \/ step.ret \in Rejections
+\* (a documented rejection answers a request; a report, a query or a rendering never raises at all)
+C11_no_escape(step) == step.ret = "ok" \/ (step.call.op \in {"req", "rerun"} /\ step.ret \in Rejections)
 ErrNames(obs, idxs, t, tid) == \E i \in idxs : obs.errs[i].task = t /\ (tid = "none" \/ obs.errs[i].tr = tid)
 (* a failing condition or publish of a completed task is recorded with the task and transition *)
 C11_recorded_transition(d, h1, prev, step) ==
@@ -617,7 +618,7 @@ C13_delay(d, step) ==
              \/ o.delay = 0 /\ HasRetry(d, o.id)
 
 (* C15/C11 (soundness half): no internal error escapes an API call. *)
-C15_internal_error(step) == step.ret = "ok" \/ step.ret \in Rejections
+C15_internal_error(step) == step.ret = "ok" \/ (step.call.op \in {"req", "rerun"} /\ step.ret \in Rejections)
 
 (* C17: rerun. *)
 C17_accept(prev, step) ==
